@@ -81,6 +81,15 @@ def choice(R):
     purl = pcall.args[0] if pcall.args else None
     o, on = rd.origin(pn, purl)
     from .common import canon
+    if not (isinstance(o, ast.Call) and canon(R, g, on, o.func) == 'self.websocket.proxies.get'):
+        # the entry is taken apart before the call (host / port / credentials passed separately): the entry is the one
+        # lookup in the proxies table that the arguments are computed from
+        looks = [(m, c) for m in g.live_nodes() for c in m.calls if canon(R, g, m, c.func) == 'self.websocket.proxies.get']
+        if len(looks) == 1:
+            ltxt = canon(R, g, looks[0][0], looks[0][1])
+            if pcall.args and all(ltxt in canon(R, g, pn, a) for a in pcall.args if not isinstance(a, ast.Constant)):
+                on, o = looks[0]
+                purl = None
     ok = isinstance(o, ast.Call) and canon(R, g, on, o.func) == 'self.websocket.proxies.get' and not o.keywords \
         and (len(o.args) == 1 or (len(o.args) == 2 and isinstance(o.args[1], ast.Constant) and o.args[1].value is None)) \
         and isinstance(o.args[0], ast.IfExp) and canon(R, g, on, o.args[0].test) == 'self.websocket.is_secure' \
@@ -161,12 +170,41 @@ def connect(R):
         if m.kind == 'stmt' and isinstance(m.ast, ast.Assign) and isinstance(m.ast.value, ast.Call) \
                 and U(m.ast.value.func) == 'urlparse' and U(m.ast.value.args[0]) == purl:
             pu = U(m.ast.targets[0])
+    lifted = None
+    if pu is None:
+        # the entry is parsed by the caller and its parts are passed in: evaluate the same rules at the one call site
+        from .common import canon as _canon
+        callers = [(cx, call) for (cx, call, t) in R.types.callers.get(f.qual, [])]
+        h0 = arg_of(c, sockf, 'host')
+        if len(callers) == 1 and isinstance(h0, ast.Name) and h0.id in f.params and rd.defs_at(n, h0.id) == {g.entry}:
+            cx, call = callers[0]
+            cg = R.cfg(cx.func.qual, cx.recv)
+            cn = [m for m in cg.live_nodes() if call in m.calls]
+            crd = ReachingDefs(cg)
+            for m in cg.live_nodes():
+                if m.kind == 'stmt' and isinstance(m.ast, ast.Assign) and isinstance(m.ast.value, ast.Call) \
+                        and U(m.ast.value.func) == 'urlparse' and m.ast.value.args:
+                    eo, eon = crd.origin(m, m.ast.value.args[0])
+                    if isinstance(eo, ast.Call) and _canon(R, cg, eon, eo.func) == 'self.websocket.proxies.get':
+                        pu = U(m.ast.targets[0])
+            if pu is not None and cn:
+                lifted = (cg, cn[0], call)
     need(pu is not None, '_connect_proxy: proxy URL is not parsed with urlparse')
-    h = arg_of(c, sockf, 'host')
+
+    n0, g0 = n, g
+
+    def _lift(e):
+        # an unmodified parameter stands for the argument of the one call
+        if lifted is not None and isinstance(e, ast.Name) and e.id in f.params and rd.defs_at(n0, e.id) == {g0.entry}:
+            return arg_of(lifted[2], f, e.id)
+        return e
+    h = _lift(arg_of(c, sockf, 'host'))
     R.ob('C19.connect', 'connects to the proxy host', h is not None and U(h) == pu + '.hostname', 'host=%s' % U(h), func=f, node=c)
-    p = arg_of(c, sockf, 'port')
+    p = _lift(arg_of(c, sockf, 'port'))
     po = p
     from .common import value_cases, otext
+    if lifted is not None:
+        g, n = lifted[0], lifted[1]
     cases = value_cases(R, g, n, p) if p is not None else []
     seen_cases = set()
     okp = bool(cases)
@@ -185,7 +223,8 @@ def connect(R):
     ok = okp and seen_cases == {'explicit', 'https', 'http'}
     R.ob('C19.connect', 'proxy port: explicit, else 443/80 by the proxy scheme', ok, 'port cases: %s' % [
         (sorted(c)[:3], U(v)) for (c, v, _) in cases], func=f, node=(po if po is not None else c))
-    s = arg_of(c, sockf, 'ssl')
+    s = _lift(arg_of(c, sockf, 'ssl'))
+    g, n = R.cfg(q), cs[0][0]
     R.ob('C19.connect', 'TLS to the proxy by the proxy scheme', s is not None and U(s) == "%s.scheme == 'https'" % pu,
          'ssl=%s' % U(s), func=f, node=c)
     br = calls_to(R, g, 'proxy.build_request')
@@ -239,7 +278,8 @@ def gate(R):
     rv = U(fl.ast.target)
     for r in rets:
         lits = {(t, p) for (t, p, _) in guards_of(g, r)}
-        ok = ('%s is None' % rv, False) in lits
+        # ... or the return is reached only through the body of the loop over the parser's results (a result was bound)
+        ok = ('%s is None' % rv, False) in lits or any(t_ is fl and p_ for (_, p_, t_) in guards_of(g, r))
         R.ob('C19.gate', 'return only with a non-None response', ok,
              '_connect_proxy can return while `%s is None` has not been found false (guards %s)' % (rv, sorted(lits)),
              func=f, node=r.ast)
@@ -322,7 +362,10 @@ def silent(R):
     ok = True
     for (n, c) in wraps:
         lits = {(t, p) for (t, p, _) in guards_of(g, n)}
-        ok = ok and any(t.endswith(' is None') and not p for (t, p) in lits)
+        ok = ok and (any(t.endswith(' is None') and not p for (t, p) in lits) or any(
+            t_.kind == 'for' and p_ and any(
+                isinstance(ty, str) and ty.startswith('gen:parser.Parser.feed') for ty in R.types.expr(t_.ast.iter, g.ctx))
+            for (_, p_, t_) in guards_of(g, n)))
     R.ob('C19.silent', 'TLS to the target only after the tunnel is up', ok, 'target TLS wrap before the response was obtained',
          func=f, node=(wraps[0][1] if wraps else None), construct='wrap placement')
 
